@@ -52,6 +52,9 @@ class Report:
         if len(self.drift) < 200:
             self.drift.append(d)
         self.extra["spec_drift"] = self.extra.get("spec_drift", 0) + 1
+        k = str(d.get("mode", "?"))
+        bym = self.extra.setdefault("spec_drift_by_mode", {})
+        bym[k] = bym.get(k, 0) + 1
 
     def sample(self, s: Any, cap: int = 6) -> None:
         if len(self.samples) < cap:
